@@ -160,13 +160,14 @@ func (c *Ctx) mayInterpret(fn *ssa.Function) bool {
 		return true
 	}
 	switch p {
-	case "bytes", "encoding/binary", "", "slices", "maps", "cmp", "sort", "strings", "unicode/utf8":
+	case "bytes", "encoding/binary", "", "slices", "maps", "cmp", "sort", "strings", "unicode/utf8", "math/bits",
+		"google.golang.org/protobuf/encoding/protowire": // pure functions over plain values and byte slices
 		return true
 	}
 	// small pure value methods of the tensor library (flag tests on DataOrder, Shape arithmetic on plain int slices)
 	if p == "gorgonia.org/tensor" {
 		n := fn.String()
-		if strings.HasPrefix(n, "(gorgonia.org/tensor.DataOrder).") {
+		if strings.HasPrefix(n, "(gorgonia.org/tensor.DataOrder).") || strings.HasPrefix(n, "(gorgonia.org/tensor.Shape).") {
 			return true
 		}
 	}
